@@ -86,6 +86,11 @@ CHECKS = {
          'Minkowski inclusions on lattice cells; TLC checks the relation against a reference construction, rejects damaged results and enumerates every point multiset / solid pair; '
          'each case is executed on the real Hull/Minkowski API through several routes and judged in exact integer arithmetic or by the winding oracle; a sample of returned meshes is re-judged by TLC.',
          'lattice inputs only; reach clause is an upper bound only; F10/F16 signatures mask their dispatch classes', 'denotational TLA+ spec, exhaustive enumeration, replay, TLC trace validation of the result relation', '5 C16'),
+ 'C17': ('model_checking', 'Ctor.tla gives every argument tuple of the seven constructors, the six transforms and Quality an exact three-valued meaning on lattice cell centres (in / out / faceting band) plus an '
+         'expected Status, counts and volumes; TLC enumerates all tuples of the small integer domains by family and checks six invariants (among them that the group-action and preimage denotations agree and '
+         'that the rounding arithmetic matches the documented rounding). Every enumerated case is executed on the real public API and classified by an independent winding-number oracle.',
+         'Lattice.tla conventions; measured Sphere in-radius bound; rational cos^2 bounds; only cell centres are judged; twist != 0 and non-integer parameters not covered',
+         'explicit TLA+ spec + TLC enumeration and invariants + replay binding', '5 C17'),
  'C18': ('exploration', 'measurement queries of every live handle of TLC-generated lattice programs compared with Lattice.tla (cells, exposed faces, '
          'extent, slices, shadow, components) and with sums over the export', 'lattice regime; MinGap/general position not covered yet', T_REPLAY, '5 C18'),
  'C19': ('model_checking', 'Refine.tla: TLC enumerates every ordered edge-division triple/quadruple up to the bound (the cache key space of the subdivision patterns) and small lattice CSG programs, '
